@@ -51,6 +51,28 @@ impl Heartbeat {
     }
 }
 
+/// Violation records are also appended to `viol_<wid>.jsonl` the moment they occur, so that they
+/// survive when the worker is later killed by the watchdog (a hang in another run).
+pub struct ViolLog {
+    f: Option<std::fs::File>,
+}
+
+impl ViolLog {
+    pub fn new(a: &WorkerArgs) -> ViolLog {
+        std::fs::create_dir_all(&a.out_dir).ok();
+        ViolLog {
+            f: std::fs::File::create(format!("{}/viol_{}.jsonl", a.out_dir, a.wid)).ok(),
+        }
+    }
+    pub fn push(&mut self, list: &mut Vec<Value>, v: Value) {
+        if let Some(f) = self.f.as_mut() {
+            let _ = writeln!(f, "{v}");
+            let _ = f.flush();
+        }
+        list.push(v);
+    }
+}
+
 fn bump(m: &mut BTreeMap<String, u64>, k: &str) {
     *m.entry(k.to_string()).or_default() += 1;
 }
@@ -118,6 +140,7 @@ pub fn run_c17(a: &WorkerArgs) -> Out {
     let mut grammar_kinds: BTreeMap<String, u64> = BTreeMap::new();
     let mut hashes: Vec<u64> = vec![];
     let mut violations: Vec<Value> = vec![];
+    let mut vlog = ViolLog::new(a);
     let mut samples: Vec<Value> = vec![];
     let mut run_lines = vec![];
     let (mut runs, mut discarded, mut rejected, mut expensive) = (0u64, 0u64, 0u64, 0u64);
@@ -163,7 +186,7 @@ pub fn run_c17(a: &WorkerArgs) -> Out {
         }
         if let Some(v) = v {
             if violations.len() < 200 {
-                violations.push(json!({
+                vlog.push(&mut violations, json!({
                     "index": idx, "class": v.class, "signature": v.signature, "detail": v.detail,
                 }));
             }
@@ -305,6 +328,7 @@ pub fn run_c12(a: &WorkerArgs) -> Out {
     let mut discards: BTreeMap<String, u64> = BTreeMap::new();
     let mut hashes = vec![];
     let mut violations = vec![];
+    let mut vlog = ViolLog::new(a);
     let mut samples = vec![];
     let mut run_lines = vec![];
     let mut st = c12::SweepStats::default();
@@ -343,7 +367,7 @@ pub fn run_c12(a: &WorkerArgs) -> Out {
                 let class = v.as_ref().map(|v| v.class.clone()).unwrap_or_else(|| "ok".into());
                 bump(&mut classes, &class);
                 if let Some(v) = v {
-                    violations.push(json!({"corpus_index": c, "class": v.class, "signature": "", "detail": v.detail, "k": v.k}));
+                    vlog.push(&mut violations, json!({"corpus_index": c, "class": v.class, "signature": "", "detail": v.detail, "k": v.k}));
                 }
             }
             Err(why) => bump(&mut discards, why),
@@ -398,7 +422,7 @@ pub fn run_c12(a: &WorkerArgs) -> Out {
                         }
                         if let Some(v) = v {
                             if violations.len() < 200 {
-                                violations.push(json!({"index": idx, "class": v.class, "signature": "", "detail": v.detail, "k": v.k}));
+                                vlog.push(&mut violations, json!({"index": idx, "class": v.class, "signature": "", "detail": v.detail, "k": v.k}));
                             }
                         }
                     }
@@ -428,7 +452,7 @@ pub fn run_c12(a: &WorkerArgs) -> Out {
                     }
                     if let Some(v) = v {
                         if violations.len() < 200 {
-                            violations.push(json!({"index": idx, "class": format!("cfg:{}", v.class), "signature": "", "detail": v.detail}));
+                            vlog.push(&mut violations, json!({"index": idx, "class": format!("cfg:{}", v.class), "signature": "", "detail": v.detail}));
                         }
                     }
                 }
@@ -494,6 +518,7 @@ pub fn run_c15(a: &WorkerArgs) -> Out {
     let mut discards: BTreeMap<String, u64> = BTreeMap::new();
     let mut hashes = vec![];
     let mut violations = vec![];
+    let mut vlog = ViolLog::new(a);
     let mut samples = vec![];
     let mut run_lines = vec![];
     let mut ds = c15::DiffStats::default();
@@ -516,7 +541,7 @@ pub fn run_c15(a: &WorkerArgs) -> Out {
                 let class = v.as_ref().map(|v| v.class.clone()).unwrap_or_else(|| "ok".into());
                 bump(&mut classes, &class);
                 if let Some(v) = v {
-                    violations.push(json!({"corpus_index": c, "class": v.class, "signature": "", "detail": v.detail, "k": v.k}));
+                    vlog.push(&mut violations, json!({"corpus_index": c, "class": v.class, "signature": "", "detail": v.detail, "k": v.k}));
                 }
             }
             Err(why) => bump(&mut discards, why),
@@ -560,7 +585,7 @@ pub fn run_c15(a: &WorkerArgs) -> Out {
                         }
                         if let Some(v) = v {
                             if violations.len() < 200 {
-                                violations.push(json!({"index": idx, "class": v.class, "signature": "", "detail": v.detail, "k": v.k}));
+                                vlog.push(&mut violations, json!({"index": idx, "class": v.class, "signature": "", "detail": v.detail, "k": v.k}));
                             }
                         }
                     }
@@ -592,7 +617,7 @@ pub fn run_c15(a: &WorkerArgs) -> Out {
                     }
                     if let Some(v) = v {
                         if violations.len() < 200 {
-                            violations.push(json!({"index": idx, "class": format!("cfg:{}", v.class), "signature": "", "detail": v.detail}));
+                            vlog.push(&mut violations, json!({"index": idx, "class": format!("cfg:{}", v.class), "signature": "", "detail": v.detail}));
                         }
                     }
                 }
